@@ -158,6 +158,133 @@ def layer_correspondence(ctx, tmp):
     ctx.traces += len(model_in)
 
 
+
+# ---------------------------------------------------------------------------------------------
+# document layer: the whole save and the whole load, value by value, against Model/JsonDoc.lean
+
+def mutate_json(rng, data, classes):
+    """one structural mutation of a saved document that keeps every attribute value as it was: drop a key, add an unknown
+    key, break or empty a reference token.  Keys of bidirectional references are left alone (the handshake of load is the
+    Store's business).  -> (kind, bytes) or None"""
+    import json
+    d = json.loads(data.decode('utf-8'))
+    feats = {}
+    for c in classes:
+        for f in c.eAllStructuralFeatures():
+            feats[f.name] = f
+    objs = []
+
+    def walk(x):
+        if isinstance(x, dict):
+            if '$ref' not in x:
+                objs.append(x)
+            for v in x.values():
+                walk(v)
+        elif isinstance(x, list):
+            for v in x:
+                walk(v)
+    walk(d)
+    if not objs:
+        return None
+    o = rng.choice(objs)
+    keys = [k for k in o if k in feats and (feats[k].is_attribute or feats[k].eOpposite is None)]
+    kind = rng.choice(['drop-key', 'unknown-key', 'bad-ref', 'null-value'])
+    if kind == 'drop-key' and keys:
+        del o[rng.choice(keys)]
+    elif kind == 'unknown-key':
+        o['zzzUnknown'] = 1
+    elif kind == 'null-value':
+        ks = [k for k in keys if not feats[k].many]
+        if not ks:
+            return None
+        o[rng.choice(ks)] = None
+    elif kind == 'bad-ref':
+        refs = [k for k in keys if not feats[k].is_attribute and not feats[k].containment]
+        if not refs:
+            return None
+        k = rng.choice(refs)
+        v = o[k]
+        tgt = v if isinstance(v, dict) else (rng.choice(v) if v else None)
+        if not isinstance(tgt, dict) or '$ref' not in tgt:
+            return None
+        tgt['$ref'] = rng.choice(['//@nope.0', '/99', 'no-such-id'])
+    else:
+        return None
+    return kind, json.dumps(d).encode('utf-8')
+
+
+def doc_layer(ctx, tmp):
+    """every generated (metamodel, model, options): (1) the values `save` wrote vs the model's `jEncodeDoc` of the same
+    object forest; (2) the model's `jDecodeDoc` of those values vs the normal form of what `load` built; (3) the same for
+    structurally mutated documents, where load may raise (the model must then say `fail`)"""
+    from pyecore.resources import ResourceSet, URI
+    from pyecore.resources.json import JsonResource, JsonOptions
+    from . import xdoc
+    n = 150 if ctx.quick() else 3000
+    lines, wants = [], []
+    for h in range(n):
+        rng = common.sub_rng(ctx.seed, 'C09', 'doc', h)
+        sp = models.gen_mmspec(rng, h)
+        m = models.gen_model(rng, sp, nobj=rng.randint(2, 9))
+        classes = [m.classes[c['name']] for c in sp.classes]
+        use_uuid, sd = rng.random() < .35, rng.random() < .4
+        rep = {'case': h, 'layer': 'document', 'options': f'uuid={int(use_uuid)} defaults={int(sd)}'}
+        rset = ResourceSet()
+        rset.resource_factory['json'] = lambda uri: JsonResource(uri)
+        path = os.path.join(tmp, 'doc.json')
+        res = rset.create_resource(URI(path))
+        res.use_uuid = use_uuid
+        for r in m.roots:
+            res.append(r)
+        try:
+            res.save(options={JsonOptions.SERIALIZE_DEFAULT_VALUES: sd})
+        except Exception as e:
+            ctx.violate({'clause': 'roundtrip-raised', 'error': type(e).__name__}, f'save raised {type(e).__name__}: {e}', rep)
+            continue
+        data = open(path, 'rb').read()
+        forest = '(' + ' '.join(xdoc.jsnode(r, classes, m.roots) for r in m.roots) + ')'
+        lines += xdoc.jmm_lines(classes)
+        wants += [None] * (len(classes) + 1)
+        lines.append(f'jenc {int(sd)} {int(use_uuid)} {forest}')
+        wants.append((rep, 'save', xdoc.jdoc_sexp(data)[1:-1].strip()))
+        variants = [('saved', data)]
+        for _ in range(2):
+            mu = mutate_json(rng, data, classes)
+            if mu:
+                variants.append(mu)
+        for kind, bytes_ in variants:
+            with open(path, 'wb') as fh:
+                fh.write(bytes_)
+            rset2 = ResourceSet()
+            rset2.resource_factory['json'] = lambda uri: JsonResource(uri)
+            rset2.metamodel_registry[m.pk.nsURI] = m.pk
+            try:
+                res2 = rset2.get_resource(URI(path))
+                roots2 = list(res2.contents)
+                nf = ' '.join(xdoc.jnormal_form(r, classes, roots2, res2.use_uuid) for r in roots2)
+            except Exception:
+                nf = 'fail'
+            lines.append(f'jdec {int(sd)} {int(use_uuid)} {xdoc.jdoc_sexp(bytes_)}')
+            wants.append((dict(rep, document=kind), 'load', nf))
+            ctx.count('doc/' + kind + ('/raises' if nf == 'fail' else ''))
+        ctx.nontriv(('doc', h))
+    outs = common.run_driver('jdoc', lines)
+    nbad = 0
+    for l, w, o in zip(lines, wants, outs):
+        if w is None:
+            continue
+        ctx.evaluations += 1
+        rep, what, want = w
+        if o.strip() != want.strip():
+            nbad += 1
+            if nbad <= 20:
+                i = next((k for k in range(min(len(o), len(want))) if o[k] != want[k]), min(len(o), len(want)))
+                ctx.diverge(f'document layer, {what} ({rep.get("document", "saved")}): first difference at {i}: model `…{o[max(0, i - 80):i + 120]}` vs '
+                            f'implementation `…{want[max(0, i - 80):i + 120]}`', rep)
+    ctx.traces += len(lines)
+    ctx.extra['document_layer_records'] = len([w for w in wants if w])
+
+
 def run(ctx):
     common.use_repo()
     n = 300 if ctx.quick() else 6000
@@ -168,6 +295,7 @@ def run(ctx):
         for h in range(n):
             run_case(ctx, h, tmp, 10 if ctx.quick() else 25)
         layer_correspondence(ctx, tmp)
+        doc_layer(ctx, tmp)
     finally:
         shutil.rmtree(tmp, ignore_errors=True)
 
